@@ -26,6 +26,15 @@ def gen(rng, tier, idx):
     nlay = rng.choice([1, 2, 2, 3, 3, 3, 4, 4, 5, 6])
     orders = cm.gen_layout_chain(rng, ndim, nlay, len(nprocs))
     shape = cm.gen_shape(rng, ndim, nprocs, orders)
+    underfull = False
+    if rng.random() < 0.08:
+        # an extent smaller than the number of processes it is spread over: some ranks own nothing
+        # ("all global shapes": the handler accepts these, the drivers' process-grid search does not)
+        cand = [(o[j], p) for o in orders for j, p in enumerate(nprocs) if p > 1]
+        if cand:
+            d, p = rng.choice(cand)
+            shape[d] = rng.randint(1, p - 1)
+            underfull = True
     names = cm.LAYOUT_NAMES[:nlay]
     if rng.random() < 0.3:
         rng.shuffle(names)
@@ -37,7 +46,7 @@ def gen(rng, tier, idx):
     rng.shuffle(ops)
     return dict(P=int(np.prod(nprocs)), nprocs=nprocs, shape=shape, layouts=layouts,
                 dtype=rng.choice(['float64', 'float64', 'complex128', 'int64']),
-                ops=ops, extra=rng.choice([0, 0, 0, 1, 5]), reuse=rng.random() < 0.3,
+                ops=ops, extra=rng.choice([0, 0, 0, 1, 5]), reuse=rng.random() < 0.3, underfull=underfull,
                 sched=_sched(rng))
 
 
@@ -158,6 +167,8 @@ def run(case, tape=None):
             probes['local_only'] = 1
         if case.get('reuse'):
             probes['arrays_reused_across_transposes'] = 1
+        if case.get('underfull'):
+            probes['extent_below_process_count'] = 1
         return dict(nontrivial=(P > 1 and n_a2a > 0), probes=probes)
 
     return execute(ID, P, case['sched'], tape, rank_fn, post)
